@@ -1,7 +1,10 @@
 import Tumfl.Props.C20
 import Tumfl.Props.C16
+import Tumfl.Props.Lex
 #print axioms Tumfl.Props.C20_delivery
 #print axioms Tumfl.Props.C20_all_comments
 #print axioms Tumfl.Props.C05_comments
 #print axioms Tumfl.Props.C05_long_brackets
 #print axioms Tumfl.Props.C16_positions
+#print axioms Tumfl.Props.Lex_sound
+#print axioms Tumfl.Props.Lex_complete
